@@ -457,6 +457,7 @@ CONSTANTS
   Fixed = TRUE
   TopoOnly = %s
   Phases = {1}
+  Attrs = {"pdf"}
   GradXs <- GXq
   GradHs <- GHq
 INVARIANT Emit
@@ -477,13 +478,13 @@ def scenarios(ctx):
     em = emitted(ctx, "N3", 2, False)
     em2 = emitted(ctx, "N2", 2, False)
     n_em = len(em) + len(em2)
-    take = rnd.sample(em, min(len(em), 900 if ctx.quick else len(em))) + em2
+    take = rnd.sample(em, min(len(em), 700 if ctx.quick else len(em))) + em2
     for g in take:
         params = sorted(g["args"])
         mode = rnd.choice(["val", "val", "val", "grad", "rvs"])
         out.append(instantiate(rnd, params, g["args"], g["names"], mode))
     n_emitted_used = len(out) - 2
-    n_rand = 700 if ctx.quick else 8000
+    n_rand = 600 if ctx.quick else 8000
     for _ in range(n_rand):
         params, args = random_dag(rnd, rnd.choice([1, 2, 3, 4, 4, 4]))
         names = closed_orders(rnd, params, args)
@@ -525,7 +526,7 @@ def check_scenarios(ctx, scs):
     return traces
 
 
-def mc_cfg(names, max_args, fixed, topo, phases, invs, big=False):
+def mc_cfg(names, max_args, fixed, topo, phases, invs, big=False, attrs=("pdf", "logpdf")):
     return """SPECIFICATION Spec
 CONSTANTS
   Names <- %s
@@ -533,12 +534,13 @@ CONSTANTS
   Fixed = %s
   TopoOnly = %s
   Phases = {%s}
+  Attrs = {%s}
   GradXs <- %s
   GradHs <- %s
 %s
 CHECK_DEADLOCK FALSE
 """ % (names, max_args, "TRUE" if fixed else "FALSE", "TRUE" if topo else "FALSE", ", ".join(str(p) for p in phases),
-       "GXt" if big else "GXq", "GHt" if big else "GHq", "\n".join("INVARIANT " + i for i in invs))
+       ", ".join('"%s"' % a for a in attrs), "GXt" if big else "GXq", "GHt" if big else "GHq", "\n".join("INVARIANT " + i for i in invs))
 
 
 def run(ctx):
@@ -575,7 +577,7 @@ def run(ctx):
         ctx.tlc("MC_ModelPrior", "MC_ModelPrior_N3any2", cfg_text=mc_cfg("N3", 2, True, False, [1, 3], inv1 + ["GradTheorem", "ZeroIff"], big=True),
                 expect_actions=acts1 + ["PickGrad"], workers=8, timeout=1800)
         ctx.tlc("MC_ModelPrior", "MC_ModelPrior_N4any1", cfg_text=mc_cfg("N4", 1, True, False, [1], inv1), expect_actions=acts1, workers=8, timeout=1800)
-        ctx.tlc("MC_ModelPrior", "MC_ModelPrior_N4topo2", cfg_text=mc_cfg("N4", 2, True, True, [1], inv1), expect_actions=acts1, workers=8, timeout=3000)
+        ctx.tlc("MC_ModelPrior", "MC_ModelPrior_N4topo2", cfg_text=mc_cfg("N4", 2, True, True, [1], inv1, attrs=("pdf",)), expect_actions=acts1, workers=8, timeout=3000)
     scs, n_em, n_used = scenarios(ctx)
     traces = check_scenarios(ctx, scs)
     ctx.exhaustive = not ctx.quick
